@@ -110,27 +110,46 @@ def disturbance():
             ["mathml", PROBE2], ["speech"], ["braille", ""], ["nodeat", 1], ["mathml", "<math><mi>broken"], ["mathml", PROBE]]
 
 
-def run_histories(mc, hists, names, with_disturbance=False):
+def use_phase():
+    """the library in ordinary use BEFORE a preference is written: an expression, every kind of output, navigation commands of every
+    class (move, zoom, read, describe, toggles back and forth, place marker) - state that navigation writes back into the preferences
+    must keep its kind"""
+    return [["mathml", PROBE], ["speech"], ["braille", ""], ["overview"], ["nav", "ZoomIn"], ["nav", "MoveNext"], ["nav", "ReadCurrent"], ["nav", "DescribeCurrent"],
+            ["nav", "ToggleSpeakMode"], ["nav", "ToggleSpeakMode"], ["nav", "ToggleZoomLockUp"], ["nav", "ToggleZoomLockDown"], ["nav", "SetPlacemarker1"], ["nav", "ZoomOut"], ["navid"], ["brpos"]]
+
+
+def after_write():
+    return [["nav", "ZoomIn"], ["nav", "MoveNext"], ["speech"], ["nav", "ZoomOut"]]
+
+
+def run_histories(mc, hists, names, with_disturbance=False, in_use=False):
     """each history (list of (name, value)) in a fresh session; returns per history (set results, final snapshot)"""
     cases = []
+    pre = use_phase() if in_use else []
     for h in hists:
-        ops = [["pref", n, v] for n, v in h]
+        ops = pre + [["pref", n, v] for n, v in h]
         ops += [["getpref", h[-1][0]]]
         if with_disturbance:
             ops += disturbance()
+        if in_use:
+            ops += after_write()
         ops += snapshot_ops(names)
         cases.append(ops)
     _, res = mc.run_cases([["rules_dir", mcx.RULES]], cases, fresh=True)
     out = []
     for h, r in zip(hists, res):
+        r = r[len(pre):]
         nset = len(h)
         snap = {n: (x[1] if x[0] == "o" else None) for n, x in zip(names, r[-len(names):])}
         out.append((r[:nset], r[nset], snap, r))
     return out
 
 
-def check_history(h, sets, readback, snap, kinds, initial, disturbed=False):
+def check_history(h, sets, readback, snap, kinds, initial, disturbed=False, in_use=False):
     """-> list of (key, what)"""
+    if in_use:
+        # same claims, made while the library is in use: keys carry their own tag so that nothing recorded for a fresh session can hide them
+        return [(k.replace("C12|", "C12|in-use|", 1), w + " [written after an expression, outputs and navigation commands]") for k, w in check_history(h, sets, readback, snap, kinds, initial, disturbed=True)]
     out = []
     m = Model(kinds, initial)
     exempt = set()
@@ -195,10 +214,10 @@ def work(item):
     kind, hists, names, kinds, initial = item
     mc = mcx.worker_mc()
     viol, counts, nontriv = [], {"evaluations": 0, "skipped_panics": 0}, []
-    res = run_histories(mc, hists, names, with_disturbance=(kind == "D"))
+    res = run_histories(mc, hists, names, with_disturbance=(kind == "D"), in_use=(kind == "F"))
     for h, (sets, rb, snap, raw) in zip(hists, res):
         counts["evaluations"] += 1
-        v = check_history(h, sets, rb, snap, kinds, initial, disturbed=(kind == "D"))
+        v = check_history(h, sets, rb, snap, kinds, initial, disturbed=(kind == "D"), in_use=(kind == "F"))
         if v and v[0][0] == "__panic__":
             counts["skipped_panics"] += 1
             continue
@@ -338,7 +357,10 @@ def main(tier):
             for n, v in [("DecimalSeparators", ","), ("BlockSeparators", "."), ("Pitch", "20"), ("Verbosity", "Terse"), ("BrailleNavHighlight", "All")]:
                 if n != q:
                     E.append([(q, vq), (n, v), (q, vq)])
-    for tag, hs, step in (("A", A, 300), ("B", B, 300), ("C", C, 300), ("D", D, 20), ("E", E, 300)):
+    # F: the writes of A made while the library is in use (after an expression, every output and navigation commands of every class),
+    #    followed by more navigation: kinds and values persist, bad settings are still refused
+    F = A
+    for tag, hs, step in (("A", A, 300), ("B", B, 300), ("C", C, 300), ("D", D, 20), ("E", E, 300), ("F", F, 100)):
         run.count("histories_" + tag, len(hs))
         for i in range(0, len(hs), step):
             jobs.append((tag, hs[i:i + step], names, kinds, initial))
@@ -369,7 +391,7 @@ def main(tier):
         rule=f"{len(names)} known names (prefs.yaml flattened + API/user defaults, kinds from the YAML/Rust value types) + 3 unknown names; values: generic "
              f"{GENERIC}, documented members, default and case-swapped default, malformed language tags, numeric oddities. A: every (name, value) once; "
              "B: every name with every ordered pair of values" + (" of different kinds (all pairs for enumerated preferences)" if tier == "quick" else "") +
-             "; C: all pairs" + (" and triples" if tier == "thorough" else "") + " over a 12-name core; D: every accepted setting followed by 20 set_mathml/getter/navigation/routing calls; "
+             "; C: all pairs" + (" and triples" if tier == "thorough" else "") + " over a 12-name core; D: every accepted setting followed by 20 set_mathml/getter/navigation/routing calls; F: every (name, value) written after an expression, all outputs and 12 navigation commands (moves, reads, toggles, a place marker), followed by more navigation; "
              "independence pairs per prefs.yaml group. Each history in a fresh session, followed by a snapshot of ALL preferences compared with the model. "
              "distinct_nontrivial = distinct (history, outcome) pairs",
         coverage_extra={"states": len(states), "transitions": int(run.counters.get("evaluations", 0)), "traces_validated_against_impl": int(run.counters.get("evaluations", 0))},
